@@ -55,7 +55,12 @@ func genC10(r *sim.Rand, tier string) *sim.Program {
 		p.Add("user", r.Intn(256), r.Intn(3), r.Intn(3)).WithB(r.Bytes(l)) // hid seed, sign key format, enc key format
 	}
 	nops := r.Range(2, 6)
-	msgLen := func() int { return r.PickInt(1, 15, 16, 17, 32, 33, 64, 65, 96, 97, 100, 192, 224, 225, 300) }
+	msgLen := func() int {
+		if r.Chance(1, 40) {
+			return r.PickInt(8129, 8200, 8300) // XOR mode: KDF output past 8160 bytes (block counter beyond one byte)
+		}
+		return r.PickInt(1, 15, 16, 17, 32, 33, 64, 65, 96, 97, 100, 192, 224, 225, 300)
+	}
 	for i := 0; i < nops; i++ {
 		u := r.Intn(nu)
 		switch r.Intn(14) {
@@ -64,13 +69,13 @@ func genC10(r *sim.Rand, tier string) *sim.Program {
 		case 2:
 			p.Add("signall", u, r.Intn(1<<30)).WithB(r.Bytes(msgLen()))
 		case 3, 4:
-			p.Add("wrap", u, r.Intn(1<<30), r.PickInt(1, 16, 32, 33, 64, 65, 97, 128, 225, 300), r.Intn(4), r.Intn(1<<16))
+			p.Add("wrap", u, r.Intn(1<<30), r.PickInt(1, 16, 32, 33, 64, 65, 97, 128, 225, 300, 300, 8161, 8200), r.Intn(4), r.Intn(1<<16))
 		case 5, 6, 7:
 			p.Add("enc", u, r.Intn(1<<30), r.Intn(5), r.Intn(2), r.Intn(6), r.Intn(1<<16)).WithB(r.Bytes(msgLen()))
 		case 8:
 			p.Add("encall", u, r.Intn(1<<30), r.Intn(5), r.Intn(2)).WithB(r.Bytes(r.PickInt(1, 16, 33, 65)))
 		case 9, 10:
-			p.Add("kx", u, (u+1)%nu, r.Intn(1<<30), r.PickInt(16, 16, 32, 48, 100), r.Intn(2), r.Intn(7), r.Intn(3), r.Intn(1<<16))
+			p.Add("kx", u, (u+1)%nu, r.Intn(1<<30), r.PickInt(16, 16, 32, 48, 100, 100, 8200), r.Intn(2), r.Intn(7), r.Intn(3), r.Intn(1<<16), r.PickInt(0, 0, r.Intn(12)))
 		case 11:
 			if r.Chance(1, 3) {
 				// constructive: search a scalar for which the 1-byte derived key is zero, so that WrapKey must draw again
@@ -312,14 +317,14 @@ func execC10(t *testing.T, p *sim.Program, c *sim.Ctx) {
 			}
 			if op.K == "signall" {
 				c.Abs("signall", len(u.uid)%64)
-				for k := 0; k < 96 && !c.Failed(); k++ {
+				for k := 0; k < 97 && !c.Failed(); k++ {
 					m := append([]byte{}, sig...)
 					m[valuePos(k)] ^= byte(1 << (k % 8))
 					if sm9.VerifyASN1(spub, u.uid, u.hidS, msg, m) {
 						c.Fail("altered-signature-accepted", i, op.K, "signature with value byte %d altered still verifies", valuePos(k))
 					}
 				}
-				c.HitN("fault:exhaustive-value-bytes", 96)
+				c.HitN("fault:exhaustive-value-bytes", 97)
 				continue
 			}
 			kind := op.Int(2) % 6
@@ -357,7 +362,7 @@ func execC10(t *testing.T, p *sim.Program, c *sim.Ctx) {
 			}
 		case "wrap":
 			klen := op.Int(2)
-			if klen < 1 || klen > 2048 {
+			if klen < 1 || klen > 10000 {
 				klen = 32
 			}
 			c.Abs("wrap", len(u.uid)%64, sim.LenClass(klen, 32), op.Int(3)%4)
@@ -471,6 +476,8 @@ func execC10(t *testing.T, p *sim.Program, c *sim.Ctx) {
 					return
 				}
 				c1e, c3e, c2e := tree.Children[1], tree.Children[2], tree.Children[3]
+				// the unused-bits octet of C1's BIT STRING is part of its value; the point-format octet is not judged
+				valueOffs = append(valueOffs, c1e.Off+c1e.HdrLen)
 				for k := 2; k < len(c1e.Content); k++ {
 					valueOffs = append(valueOffs, c1e.Off+c1e.HdrLen+k)
 				}
@@ -592,7 +599,7 @@ func execC10(t *testing.T, p *sim.Program, c *sim.Ctx) {
 		case "kx":
 			a, b := u, users[((op.Int(1)%len(users))+len(users))%len(users)]
 			klen := op.Int(3)
-			if klen < 1 || klen > 1024 {
+			if klen < 1 || klen > 10000 {
 				klen = 16
 			}
 			conf := op.Int(4)%2 == 1
@@ -606,116 +613,146 @@ func execC10(t *testing.T, p *sim.Program, c *sim.Ctx) {
 				c.Fail("keygen", i, op.K, "%v %v", err1, err2)
 				return
 			}
-			A := ka.NewKeyExchange(a.uid, b.uid, klen, conf)
-			B := kb.NewKeyExchange(b.uid, a.uid, klen, conf)
-			corrupt := func(m []byte, target bool) []byte {
-				if !target || fault == 0 || len(m) == 0 {
-					return m
-				}
-				o := append([]byte{}, m...)
-				switch fault {
-				case 1, 2:
-					o[op.Int(7)%len(o)] ^= byte(1 + op.Int(7)%255)
-					c.Hit("fault:byte-corrupted")
-				case 3:
-					o[len(o)-1] ^= 1
-					c.Hit("fault:byte-corrupted")
-				case 4: // zero the message
-					for k := range o {
-						o[k] = 0
+			// object re-use (knob, argument 8): bit 0 - the initiator keeps its KeyExchange object for the next agreement,
+			// bit 1 - the responder does; (knob >> 2) % 3 further agreements follow on those objects. Faults are injected
+			// into the last agreement only, so that the earlier ones complete and leave the objects in their final state.
+			knob := op.Int(8)
+			rounds := 1 + (knob>>2)%3
+			if rounds < 1 {
+				rounds = 1
+			}
+			var A, B sm9.KeyExchange
+			exchange := func(round int, faultsOn bool) int {
+				corrupt := func(m []byte, target bool) []byte {
+					if !target || fault == 0 || len(m) == 0 || !faultsOn {
+						return m
 					}
-					c.Hit("fault:zeroed")
-				case 5: // truncate
-					o = o[:len(o)-1]
-					c.Hit("fault:truncated")
-				default:
-					return nil
+					o := append([]byte{}, m...)
+					switch fault {
+					case 1, 2:
+						o[op.Int(7)%len(o)] ^= byte(1 + op.Int(7)%255)
+						c.Hit("fault:byte-corrupted")
+					case 3:
+						o[len(o)-1] ^= 1
+						c.Hit("fault:byte-corrupted")
+					case 4: // zero the message
+						for k := range o {
+							o[k] = 0
+						}
+						c.Hit("fault:zeroed")
+					case 5: // truncate
+						o = o[:len(o)-1]
+						c.Hit("fault:truncated")
+					default:
+						return nil
+					}
+					return o
 				}
-				return o
-			}
-			ra, err := A.InitKeyExchange(rd(op.Int(2), "kxa"), hid)
-			if err != nil {
-				c.Fail("kx-failed", i, op.K, "init: %v", err)
-				return
-			}
-			c.Out("ra", ra)
-			m1 := corrupt(ra, fmsg == 0)
-			if m1 == nil {
-				c.Hit("fault:message-dropped")
-				continue
-			}
-			altered := !bytes.Equal(m1, ra)
-			rb, sb, err := B.RespondKeyExchange(rd(op.Int(2), "kxb"), hid, m1)
-			c.OutErr("kx-b", err)
-			if err != nil {
+				ra, err := A.InitKeyExchange(rd(op.Int(2)+round, "kxa"), hid)
+				if err != nil {
+					c.Fail("kx-failed", i, op.K, "init: %v", err)
+					return 2
+				}
+				c.Out("ra", ra)
+				m1 := corrupt(ra, fmsg == 0)
+				if m1 == nil {
+					c.Hit("fault:message-dropped")
+					return 1
+				}
+				altered := !bytes.Equal(m1, ra)
+				rb, sb, err := B.RespondKeyExchange(rd(op.Int(2)+round, "kxb"), hid, m1)
+				c.OutErr("kx-b", err)
+				if err != nil {
+					if !altered {
+						c.Fail("kx-failed", i, op.K, "responder refused an untouched R_A: %v", err)
+					}
+					return 1
+				}
+				c.Out("rb", rb)
+				c.Out("sb", sb)
+				m2r, m2s := rb, sb
+				if fmsg == 1 {
+					if conf && op.Int(7)%2 == 1 {
+						m2s = corrupt(sb, true)
+					} else {
+						m2r = corrupt(rb, true)
+					}
+					if m2r == nil || (conf && m2s == nil) {
+						c.Hit("fault:message-dropped")
+						return 1
+					}
+				}
+				altered = altered || !bytes.Equal(m2r, rb) || !bytes.Equal(m2s, sb)
+				keyA, sa, err := A.ConfirmResponder(m2r, m2s)
+				c.OutErr("kx-a", err)
+				if err != nil {
+					if !altered {
+						c.Fail("kx-failed", i, op.K, "initiator refused untouched messages: %v", err)
+					}
+					return 1
+				}
+				if altered && conf {
+					c.Fail("altered-message-accepted", i, op.K, "with confirmation on, the initiator accepted altered key-exchange messages (fault %d on message %d)", fault, fmsg)
+					return 2
+				}
+				c.Out("keyA", keyA)
+				m3 := sa
+				if fmsg == 2 && conf {
+					m3 = corrupt(sa, true)
+					if m3 == nil {
+						c.Hit("fault:message-dropped")
+						return 1
+					}
+				}
+				altered3 := !bytes.Equal(m3, sa)
+				keyB, err := B.ConfirmInitiator(m3)
+				c.OutErr("kx-b2", err)
+				if err != nil {
+					if !altered && !altered3 {
+						c.Fail("kx-failed", i, op.K, "responder refused an untouched confirmation: %v", err)
+					}
+					return 1
+				}
+				if altered3 && conf {
+					c.Fail("altered-message-accepted", i, op.K, "the responder accepted an altered confirmation value")
+					return 2
+				}
+				c.Out("keyB", keyB)
+				if !altered && !bytes.Equal(keyA, keyB) {
+					c.Fail("keys-differ", i, op.K, "both parties finished an untouched exchange with different keys (uid lengths %d / %d, %d key bytes)", len(a.uid), len(b.uid), klen)
+					return 2
+				}
+				if conf && !bytes.Equal(keyA, keyB) {
+					c.Fail("keys-differ", i, op.K, "with confirmation on both parties returned keys, but different ones")
+					return 2
+				}
+				if len(keyA) != klen {
+					c.Fail("key-length", i, op.K, "key has %d bytes, requested %d", len(keyA), klen)
+				}
 				if !altered {
-					c.Fail("kx-failed", i, op.K, "responder refused an untouched R_A: %v", err)
+					c.Hit("probe:key-exchange-completed")
+					return 0
 				}
-				continue
+				return 1
 			}
-			c.Out("rb", rb)
-			c.Out("sb", sb)
-			m2r, m2s := rb, sb
-			if fmsg == 1 {
-				if conf && op.Int(7)%2 == 1 {
-					m2s = corrupt(sb, true)
+			for round := 0; round < rounds; round++ {
+				if A == nil || knob&1 == 0 {
+					A = ka.NewKeyExchange(a.uid, b.uid, klen, conf)
 				} else {
-					m2r = corrupt(rb, true)
+					c.Hit("probe:key-exchange-object-reused")
 				}
-				if m2r == nil || (conf && m2s == nil) {
-					c.Hit("fault:message-dropped")
-					continue
+				if B == nil || knob&2 == 0 {
+					B = kb.NewKeyExchange(b.uid, a.uid, klen, conf)
+				} else {
+					c.Hit("probe:key-exchange-object-reused")
 				}
-			}
-			altered = altered || !bytes.Equal(m2r, rb) || !bytes.Equal(m2s, sb)
-			keyA, sa, err := A.ConfirmResponder(m2r, m2s)
-			c.OutErr("kx-a", err)
-			if err != nil {
-				if !altered {
-					c.Fail("kx-failed", i, op.K, "initiator refused untouched messages: %v", err)
+				st := exchange(round, round == rounds-1)
+				if st == 2 {
+					return
 				}
-				continue
-			}
-			if altered && conf {
-				c.Fail("altered-message-accepted", i, op.K, "with confirmation on, the initiator accepted altered key-exchange messages (fault %d on message %d)", fault, fmsg)
-				return
-			}
-			c.Out("keyA", keyA)
-			m3 := sa
-			if fmsg == 2 && conf {
-				m3 = corrupt(sa, true)
-				if m3 == nil {
-					c.Hit("fault:message-dropped")
-					continue
+				if st == 1 {
+					break
 				}
-			}
-			altered3 := !bytes.Equal(m3, sa)
-			keyB, err := B.ConfirmInitiator(m3)
-			c.OutErr("kx-b2", err)
-			if err != nil {
-				if !altered && !altered3 {
-					c.Fail("kx-failed", i, op.K, "responder refused an untouched confirmation: %v", err)
-				}
-				continue
-			}
-			if altered3 && conf {
-				c.Fail("altered-message-accepted", i, op.K, "the responder accepted an altered confirmation value")
-				return
-			}
-			c.Out("keyB", keyB)
-			if !altered && !bytes.Equal(keyA, keyB) {
-				c.Fail("keys-differ", i, op.K, "both parties finished an untouched exchange with different keys (uid lengths %d / %d, %d key bytes)", len(a.uid), len(b.uid), klen)
-				return
-			}
-			if conf && !bytes.Equal(keyA, keyB) {
-				c.Fail("keys-differ", i, op.K, "with confirmation on both parties returned keys, but different ones")
-				return
-			}
-			if len(keyA) != klen {
-				c.Fail("key-length", i, op.K, "key has %d bytes, requested %d", len(keyA), klen)
-			}
-			if !altered {
-				c.Hit("probe:key-exchange-completed")
 			}
 		case "keyser":
 			c.Abs("keyser")
